@@ -7,3 +7,14 @@ package authorizers
 
 //@ func (*remoteAuthorizer).Execute
 //@   props C10
+
+// C11: the cache key covers the endpoint, the mechanism id, the forwarded header names, the rendered
+// payload, the ttl, the whole subject (id and attributes) and every rendered value - and does not
+// depend on map iteration order.
+//@ func (*remoteAuthorizer).calculateCacheKey
+//@   props C11
+//@   nomaprange Write
+//@   ensures ehash.n == old(ehash.n) + 1 && shash.n == old(shash.n) + 1 && shash.arg0[old(shash.n)] == sub
+//@   ensures hw.n >= old(hw.n) + 6
+//@   ensures hw.arg1[old(hw.n)] == ehash.ret0[old(ehash.n)] && hw.arg1[old(hw.n) + 1] == bytesOf(old(a.id)) && hw.arg1[old(hw.n) + 3] == bytesOf(payload)
+//@   ensures hw.arg1[old(hw.n) + 5] == shash.ret0[old(shash.n)]
